@@ -217,7 +217,13 @@ namespace Pistache::Rest
                 collection      = &optional_;
                 break;
             case SegmentType::Splat:
-                return splat_->removeRoute(lower_path);
+                // only the wildcard child may go away with its last route; whether
+                // this node is still needed depends on what else it holds
+                if (splat_ == nullptr)
+                    throw std::runtime_error("Requested does not exist.");
+                if (splat_->removeRoute(lower_path))
+                    splat_.reset();
+                return fixed_.empty() && param_.empty() && optional_.empty() && splat_ == nullptr && route_ == nullptr;
             }
 
             try
